@@ -602,7 +602,10 @@ def run(ctx):
     # a validator stricter than the property's list (C06 owns the equivalence rule) rejects reachable positions
     c06.check_validators(ctx, f, L, g)
     # ... and only if the successors made by play / null_move keep the clocks in the range the reader accepts (C02, C14)
-    from . import c02, c14
+    from . import c02, c14, c19
     c02.run(ctx)
     c14.run(ctx)
+    # ... and the en-passant square, the side and the Shredder file letters go through the text forms of Square, Color and
+    # File (C19)
+    c19.run(ctx)
     ctx.explanation = expl
